@@ -169,6 +169,8 @@ func (a *dataSetAof) Close() {
 	a.mux.Lock()
 	writer := a.writer
 	readers := a.readers
+	// closing a reader calls DelReader, which compacts a.readers in place: iterate over a copy
+	readers = append([]*AofRotateReader(nil), readers...)
 	a.mux.Unlock()
 	if writer != nil {
 		writer.Close()
